@@ -59,7 +59,10 @@ func (p *FullIntraRequest) Unmarshal(rawPacket []byte) error {
 		return err
 	}
 
-	if len(rawPacket) < (headerLength + int(4*h.Length)) {
+	// size of the packet body in octets (in int: 4*h.Length wraps in 16 bits)
+	length := 4 * int(h.Length)
+
+	if len(rawPacket) < (headerLength + length) {
 		return errPacketTooShort
 	}
 
@@ -68,7 +71,7 @@ func (p *FullIntraRequest) Unmarshal(rawPacket []byte) error {
 	}
 
 	// The FCI field MUST contain one or more FIR entries
-	if 4*h.Length-firOffset <= 0 || (4*h.Length)%8 != 0 {
+	if length-firOffset <= 0 || length%8 != 0 {
 		return errBadLength
 	}
 
@@ -78,7 +81,7 @@ func (p *FullIntraRequest) Unmarshal(rawPacket []byte) error {
 
 	p.SenderSSRC = binary.BigEndian.Uint32(rawPacket[headerLength:])
 	p.MediaSSRC = binary.BigEndian.Uint32(rawPacket[headerLength+ssrcLength:])
-	for i := headerLength + firOffset; i < (headerLength + int(h.Length*4)); i += 8 {
+	for i := headerLength + firOffset; i < (headerLength + length); i += 8 {
 		p.FIR = append(p.FIR, FIREntry{
 			binary.BigEndian.Uint32(rawPacket[i:]),
 			rawPacket[i+4],
